@@ -20,6 +20,7 @@ func (w *W) attach() {
 		// (rightly) see as unsynchronised between tasks, so the real ones run there.
 		slog.VerifYield = func(site int) { w.yield(ySiteFine + site) }
 		slog.VerifLock = lockHook{w}
+		slog.VerifSpawn = w.spawn
 		return
 	}
 	slog.VerifNow = w.clock.Now
@@ -29,6 +30,7 @@ func (w *W) attach() {
 	slog.VerifMapOrder = w.mapOrder
 	slog.VerifYield = func(site int) { w.yield(ySiteFine + site) }
 	slog.VerifLock = lockHook{w}
+	slog.VerifSpawn = w.spawn
 	// randomness the library draws itself (none on the pinned tree, where names come from a generator
 	// seeded with the clock): one stream per episode, from the episode's seed
 	slog.VerifRand = mrand.New(mrand.NewSource(int64(w.sc.Seed)))
@@ -42,6 +44,7 @@ func (w *W) detach() {
 	slog.VerifMapOrder = nil
 	slog.VerifYield = nil
 	slog.VerifLock = nil
+	slog.VerifSpawn = nil
 	slog.VerifRand = nil
 	slog.VerifRand2 = nil
 }
@@ -49,3 +52,11 @@ func (w *W) detach() {
 var _ = time.Now
 
 const seamsPresent = true
+
+// spawn is the R8 hook: a goroutine started by the library becomes a task of the scheduler while caller tasks run.
+func (w *W) spawn(f func()) {
+	if s := w.sch; s != nil && s.spawn(f) {
+		return
+	}
+	go f()
+}
